@@ -89,10 +89,10 @@ LEVEL_TEXT = {
     "C06": "every writer of the sliced-index table keeps output indices first and the slice count is multiplied/divided by the recorded size; stride arithmetic is runtime and not decided",
     "C07": "forbidden indices are excluded on every path, whatever search() returns passes the unscaled target filter, the cost model slices only indices it knows against its own baseline; equality of predicted and real costs is not decided; the cost model's own arithmetic equals the tree's cost definitions for one abstract contraction (symbolically)",
     "C08": "the returned trial is the arg-min of the recorded scores on every schedule (each reported trial is compared, guarded update, once-per-trial bookkeeping) and recorded costs are refreshed after every in-place post-processing, a failed trial never reaches the sampling library, every drawn trial reaches the comparison; cost values are not decided",
-    "C09": "necessary conditions of optimality only: each objective name is minimised with a step cost whose derived signature equals the objective's definition, the per-subgraph memo keeps the better entry, the sieve skips only on the new score against a cap that grows every round, every bipartition size is enumerated, search_outer is honoured; that the result is the global minimum is NOT decided",
-    "C10": "conventions only: every emitted path is produced children-first, every implementation of the recycled-id format removes operands in descending order and appends the result, every single-assignment id counter starts at the number of inputs and advances once per emitted step on every path; equality of round trips is NOT decided",
-    "C11": "layout agreement only: prepared operands, reshape groups and produced output order satisfy (B,M,K)x(B,K,N)->(B,M,N) for every equation, every transposition tuple has the right direction, planner and executor of single-operand einsum agree on stage order, tensordot accepts integer and negative axes; numerical equality with the reference is NOT decided",
-    "C12": "conventions only: fresh ellipsis symbols exclude every used symbol, ellipsis dimensions are right-aligned per operand and first in implicit outputs, implicit outputs are sorted singles (or first-appearance order for labels), the interleaved form pairs operand 2i with sublist 2i+1, single-operand fast paths are guarded and transpose in the right direction, one renaming map, ncon outputs ordered -1, -2, ..., blanks dropped before the subscripts string is split; conformance with numpy.einsum is NOT decided",
+    "C09": "necessary conditions of optimality only: each objective name is minimised with a step cost whose derived signature equals the objective's definition, the per-subgraph memo keeps the better entry, the sieve skips only on the new score against a cap that grows every round, every bipartition size is enumerated, search_outer is honoured; in addition the finder's own source, evaluated on a bounded family of networks (three to six tensors, eight objectives, both search_outer values), returns the minimum over all binary trees found by an independent enumeration; beyond that family global optimality is NOT decided",
+    "C10": "conventions only: every emitted path is produced children-first, every implementation of the recycled-id format removes operands in descending order and appends the result, every single-assignment id counter starts at the number of inputs and advances once per emitted step on every path; in addition the three converters' source, evaluated on every bounded path and index order, is an exact inverse pair and follows the id conventions; round trips through the tree class beyond that are NOT decided",
+    "C11": "layout agreement only: prepared operands, reshape groups and produced output order satisfy (B,M,K)x(B,K,N)->(B,M,N) for every equation, every transposition tuple has the right direction, planner and executor of single-operand einsum agree on stage order, tensordot accepts integer and negative axes; in addition the planners' source, evaluated on exhaustive bounded families of equations and sizes, yields plans that turn abstract operands into the output's axes under numpy's rules; numerical equality on arrays is NOT decided",
+    "C12": "conventions only: fresh ellipsis symbols exclude every used symbol, ellipsis dimensions are right-aligned per operand and first in implicit outputs, implicit outputs are sorted singles (or first-appearance order for labels), the interleaved form pairs operand 2i with sublist 2i+1, single-operand fast paths are guarded and transpose in the right direction, one renaming map, ncon outputs ordered -1, -2, ..., blanks dropped before the subscripts string is split; in addition the ellipsis rewriting and the interleaved conversion, evaluated on bounded families, agree with numpy's rules; conformance on arrays is NOT decided",
     "C13": "cache keys are complete and injective, memoised functions pure, cached callables stateless — for every cache site and call site in the package; numeric equality of cached and uncached results is not decided",
     "C14": "fingerprints are deterministic, covering and position-preserving, and the lookup/run/overwrite policy holds on every CFG path of the reusable optimizer; that a rebuilt tree equals the searched one is not decided",
     "C15": "no kill point can leave a partial file under an entry name because every durable write is temp-sibling + close + atomic replace, and a corrupt entry reads as absent; filesystem behaviour is assumed (POSIX rename)",
